@@ -115,7 +115,10 @@ def judge(case):
     is_utc = zone == "UTC"
     # an explicit period end one hour later is only well defined away from offset changes (start < end as instants in every
     # provider's reading); next to a transition the duration form is used instead
-    use_end = bool(case.get("end")) and not (zone != "UTC" and _within(zone, wall, timedelta(hours=3)))
+    span = timedelta(days=case.get("end_days", 0), hours=1)       # explicit ends may lie days later, across offset changes
+    end_wall = naive + span
+    use_end = bool(case.get("end")) and end_wall.year < 2100 and not (zone != "UTC" and (
+        _within(zone, wall, timedelta(hours=3)) or _within(zone, [end_wall.year, end_wall.month, end_wall.day, end_wall.hour, end_wall.minute, end_wall.second], timedelta(hours=3))))
     try:
         if shape == "utc-prop":
             return judge_utc_prop(case, dt)
@@ -131,12 +134,12 @@ def judge(case):
             values = [naive, datetime(*case["wall2"])]
         elif shape == "rdate-period":
             comp = Event()
-            second = dt + timedelta(hours=1) if use_end else timedelta(hours=1)
+            second = mk_dt(src, zone, [end_wall.year, end_wall.month, end_wall.day, end_wall.hour, end_wall.minute, end_wall.second]) if use_end else timedelta(hours=1)
             comp.add("rdate", [(dt, second)])
             values = [naive]
         else:  # freebusy
             comp = FreeBusy()
-            second = dt + timedelta(hours=1) if use_end else timedelta(hours=1)
+            second = mk_dt(src, zone, [end_wall.year, end_wall.month, end_wall.day, end_wall.hour, end_wall.minute, end_wall.second]) if use_end else timedelta(hours=1)
             comp.add("freebusy", (dt, second))
             values = [naive]
         raw = comp.to_ical()
@@ -202,11 +205,13 @@ def judge(case):
         if not isinstance(g, tuple):
             fails.append(Failure("C11.read", "period-not-a-tuple", repr(g)))
         elif use_end:
-            e_want = (dt + timedelta(hours=1)).replace(tzinfo=None)
+            e_want = end_wall
             if not isinstance(g[1], datetime) or g[1].replace(tzinfo=None) != e_want:
                 fails.append(Failure("C11.read", "period-end-wall-time-differs", f"{g[1]!r} expected {e_want!r}"))
             elif src != "dateutil" and not is_utc and (g[1].tzinfo is None or zid(g[1]) != zone):
                 fails.append(Failure("C11.read", "period-end-zone-differs", f"{g[1]!r}"))
+            elif src != "dateutil" and not is_utc and g[1].utcoffset() != provider_offset(provider, zone, e_want):
+                fails.append(Failure("C11.read", "period-end-offset-differs", f"{zone} end {e_want}: {g[1].utcoffset()} expected {provider_offset(provider, zone, e_want)}"))
         elif g[1] != timedelta(hours=1):
             fails.append(Failure("C11.read", "period-duration-differs", repr(g[1])))
     return fails
@@ -317,6 +322,7 @@ def cases(draw):
         case["wall2"] = draw(walls_for(zone))
     elif shape in ("rdate-period", "freebusy"):
         case["end"] = draw(st.booleans())
+        case["end_days"] = draw(st.sampled_from([0, 0, 1, 2, 30, 200]))
     else:
         case["how"] = draw(st.sampled_from(["add:dtstamp", "add:created", "add:last-modified", "add:acknowledged", "set:DTSTAMP", "set:LAST_MODIFIED", "set:ACKNOWLEDGED"]))
     return case
